@@ -6,7 +6,7 @@ import ast
 from sa.engine.callgraph import calls_in, resolve_call
 from sa.engine.cfg import normally_dominates
 from sa.engine.context import Ctx
-from sa.engine.loader import AnalysisError, dotted, norm, short, walk_own
+from sa.engine.loader import anorm, AnalysisError, dotted, norm, short, walk_own
 from sa.engine.loops import Intervals
 from sa.engine.nullness import M, N, Nullness, ann_optional
 from sa.engine.report import Finding, RuleReport
@@ -392,6 +392,13 @@ def rule_dim(ctx: Ctx) -> RuleReport:
         defs = {norm(n.targets[0]): norm(n.value) for n in walk_own(gd.node) if isinstance(n, ast.Assign) and len(n.targets) == 1}
         ret = [r for r in walk_own(gd.node) if isinstance(r, ast.Return) and r.value is not None]
         txt = norm(ret[0].value) if ret else ""
+        # the comprehension variable of the column maximum is spelled `row` whatever the source calls it
+        if ret:
+            comp_vars = {g.target.id for n in ast.walk(gd.node) if isinstance(n, (ast.GeneratorExp, ast.ListComp)) for g in n.generators if isinstance(g.target, ast.Name)}
+            import re as _re
+            for cv in comp_vars:
+                txt = _re.sub(rf"\b{_re.escape(cv)}\b", "row", txt)
+                defs = {k: _re.sub(rf"\b{_re.escape(cv)}\b", "row", v) for k, v in defs.items()}
         for k, v in defs.items():
             txt = txt.replace(f"rows={k}", f"rows={v}").replace(f"columns={k}", f"columns={v}")
         calls_table = "self.get_table()" in txt or any("self.get_table()" in v for v in defs.values())
@@ -438,8 +445,9 @@ def rule_meta(ctx: Ctx) -> RuleReport:
         rep.ok({"populate_from_path": "returns first when path is None"})
     else:
         rep.fail(Finding("C04-META", DT, pf.qual, norm(first)[:80], "populate_from_path does not return before touching the fields when path is None", line=pf.node.lineno))
-    assigns = {norm(n.targets[0]): norm(n.value) for n in walk_own(pf.node) if isinstance(n, ast.Assign)}
-    for fld, want in (("self.filename", "p.name"), ("self.file_extension", "p.suffix")):
+    assigns = {norm(n.targets[0]): anorm(n.value, pf.node) for n in walk_own(pf.node) if isinstance(n, ast.Assign)}
+    # the local Path object is v0 whatever it is called
+    for fld, want in (("self.filename", "v0.name"), ("self.file_extension", "v0.suffix")):
         if assigns.get(fld) == want:
             rep.ok({fld: want})
         else:
